@@ -477,7 +477,9 @@ class Doc(object):
     def build(self):
         r = self.r
         root = ET.Element(self.q('COLLADA'), {'version': '1.4.1'})
-        root.append(self.asset())      # required by the schema
+        a = self.asset()               # required by the schema
+        if not self.o.get('noasset'):
+            root.append(a)
         libs = [self.images(), self.effects(), self.materials(), self.geometries(), self.lights(), self.cameras(),
                 self.library_nodes(), self.scenes()]
         if self.o['anim']:
